@@ -84,6 +84,43 @@ def gen(tier, rng, harness=None):
     for b in patterns(rng, 11, 52, n // 3):
         if ((b >> 52) & 0x7FF) != 0x7FF:
             lines.append("!flt.rt ppc_fp128 %016X%016X" % (b, 0))
+    # values that need EVERY significand bit (odd p-bit integers scaled by small powers of two) and are still printed in decimal notation: the reader of
+    # decimal literals must round at exactly p bits (half 11, float 24, double 53)
+    import struct
+    from fractions import Fraction
+    for _ in range(n // 3):
+        for kind, pbits, lo, hi in (("half", 11, -4, 4), ("float", 24, -6, 6), ("double", 53, -6, 6)):
+            k = rng.getrandbits(pbits - 1) | (1 << (pbits - 1)) | 1
+            e = rng.randint(lo, hi)
+            v = Fraction(k) * (Fraction(2) ** e)
+            if rng.random() < 0.5:
+                v = -v
+            if kind == "half":
+                if abs(v) > 65504:
+                    continue
+                hb = struct.unpack("<H", struct.pack("<e", float(v)))[0]
+                h = "%04X" % hb
+                lines += ["flt.canon half " + h, "!flt.rt half " + h]
+            else:
+                db = struct.unpack("<Q", struct.pack("<d", float(v)))[0]
+                h = "%016X" % db
+                lines += ["flt.canon %s %s" % (kind, h), "!flt.rt %s %s" % (kind, h)]
+            # the same value as an exact decimal literal
+            j = max(0, -e)
+            num = abs(v) * 10**j
+            assert num.denominator == 1
+            digits = "%0*d" % (j + 1, num.numerator)
+            txt = ("-" if v < 0 else "") + (digits[:-j] + "." + digits[-j:] if j else digits + ".0")
+            lines.append("!flt.dec %s %s" % (kind, txt))
+    # decimal literals that are NOT exactly representable are rounded to the nearest double, ties to even (LLVM rejects them for the other kinds)
+    for _ in range(n):
+        txt = "%s%d.%s" % (rng.choice(["", "-"]), rng.choice([0, 0, 1, 3, 123456789, rng.getrandbits(40)]), "".join(rng.choice("0123456789") for _ in range(rng.randint(1, 25))))
+        if rng.random() < 0.3:
+            txt += "e%s%02d" % (rng.choice("+-"), rng.randint(0, 300))
+        lines.append("!flt.decround double " + txt)
+    for txt in ("0.1", "0.3", "1.7976931348623157e+308", "4.9406564584124654e-324", "2.2250738585072014e-308", "9007199254740993.0", "9007199254740995.0", "0.5000000000000000277555756156289135105907917022705078125",
+                "1.00000000000000011102230246251565404236316680908203125", "1.00000000000000011102230246251565404236316680908203124", "1.00000000000000011102230246251565404236316680908203126"):
+        lines.append("!flt.decround double " + txt)
     # exact decimals
     for _ in range(n):
         k = rng.randint(-(1 << 10), 1 << 10)
